@@ -645,7 +645,8 @@ impl Scenario for C16 {
                 out.push(C16 { caller: l, ..self.clone() });
             }
         }
-        for (i, it) in self.items.iter().enumerate() {
+        // per-item shrinking clones the whole scenario per candidate: only once the list is short
+        for (i, it) in self.items.iter().enumerate().take(if self.items.len() <= 64 { usize::MAX } else { 0 }) {
             let mut push = |item: Item| {
                 let mut v = self.items.clone();
                 v[i] = item;
@@ -960,6 +961,17 @@ impl Property for P16 {
                 over.sync_before = true;
                 out.push(C16 { sink: lane, ..base(vec![it(small.clone()), over, Item { sync_before: true, ..it(small.clone()) }]) });
             }
+        }
+        // a frame of more than 16 MiB (most significant prefix byte non-zero), whole and in 5 MiB pieces with a cancellation;
+        // more than 65536 frames through one writer (16-bit counters)
+        {
+            let it = |v: ValSpec| Item { kind: ItemKind::Val(v), sync_before: false, flush_after: false };
+            let small = ValSpec { ty: Ty::Bytes, size: 3, seed: 7 };
+            for g in [u32::MAX, 5 << 20] {
+                let lane = if g == u32::MAX { vec![] } else { vec![Step::Xfer(g), Step::Pending, Step::Xfer(g), Step::Xfer(g)] };
+                out.push(C16 { sink: lane, caller: vec![Decide::Cancel], max_len_mode: 1, ..base(vec![it(small.clone()), it(bytes_spec_with_encoding_len((16 << 20) + 11)), it(small.clone())]) });
+            }
+            out.push(base((0..65_700u64).map(|i| it(ValSpec { ty: Ty::U64, size: 0, seed: i })).collect()));
         }
         let mut all: Vec<S16> = out.into_iter().map(S16::Single).collect();
         all.extend(crate::pipe::PipeSc::sweeps().into_iter().map(S16::Pipe));
